@@ -24,3 +24,6 @@ def check(ctx):
                            "--big-tables", "3" if q else "40", "--file-max", "600" if q else "6000", "--huge", "1" if q else "3"],
               scripted=2500 if q else 40000,
               what="order / completeness / assignment at every delivery and at end of input")
+
+# round 6 (DESIGN.md 11.10)
+META["technique"] += ' The huge-queue case (> 10^6 messages held back) also exists as a late-merge variant: the queued lifecycle is merged into its predecessor by the message behind the queue.'
